@@ -276,6 +276,31 @@ func genC11Case(r *rand.Rand, idx int64) *c11Case {
 			}
 		}
 	}
+	// namespace names are case sensitive (two TypeScript classes `Group` and `group`
+	// are different namespaces): a sixth of the documents has such a pair
+	if idx%6 == 5 && len(cfg.NS) >= 2 {
+		a, b := cfg.NS[r.IntN(len(cfg.NS))], cfg.NS[r.IntN(len(cfg.NS))]
+		if a != b {
+			nw := strings.ToLower(a.Name)
+			if nw == a.Name {
+				nw = strings.ToUpper(a.Name)
+			}
+			if nw != a.Name && cfg.ns(nw) == nil && isIdent(nw) {
+				old := b.Name
+				b.Name = nw
+				for _, n := range cfg.NS {
+					for _, rd := range n.Rels {
+						for i := range rd.Types {
+							if rd.Types[i].NS == old {
+								rd.Types[i].NS = nw
+							}
+						}
+					}
+				}
+				cc.Variant += "+case-twin"
+			}
+		}
+	}
 	cc.Cfg = cfg
 	cc.Text = (&renderStyle{FullParens: true}).render(cfg)
 	// conforming tuples, generated from the declared types
@@ -910,5 +935,68 @@ func runC11Mutations(run *runner, lim *sigLimiter, idx int64, cc *c11Case, r *ra
 			}
 		}
 	}
+	// Partially declared targets: the traversed relation gets ONE MORE member type, a
+	// namespace that does not declare the relation the traverse asks for (as first,
+	// middle or last member of the union). The reference is undeclared for that
+	// member, so the document must be rejected - whatever the other members declare.
+	var ttus []refSite
+	for _, s := range sites {
+		if s.Kind == "computed-relation-in-traverse" {
+			ttus = append(ttus, s)
+		}
+	}
+	for k := 0; k < 2 && k < len(ttus); k++ {
+		site := ttus[k]
+		mc := cloneCfg(cc.Cfg)
+		var hostNS *NSDef
+		var hostRel *RelDef
+		var ttu *Expr
+		for _, n := range mc.NS {
+			if n.Name == site.NS {
+				hostNS, hostRel = n, n.rel(site.Rel)
+			}
+		}
+		if hostRel == nil || hostRel.Rewrite == nil {
+			continue
+		}
+		var path []int
+		if _, err := fmt.Sscanf(strings.NewReplacer("[", "", "]", "").Replace(site.Pos), "%d", new(int)); err == nil || site.Pos == "[]" {
+			for _, f := range strings.Fields(strings.NewReplacer("[", "", "]", "").Replace(site.Pos)) {
+				var x int
+				fmt.Sscan(f, &x)
+				path = append(path, x)
+			}
+		}
+		ttu = exprAt(hostRel.Rewrite, path)
+		if ttu == nil || ttu.Op != "ttu" {
+			continue
+		}
+		trav := hostNS.rel(ttu.Rel)
+		if trav == nil || len(trav.Types) == 0 {
+			continue
+		}
+		extra := undeclaredName(mc, true)
+		mc.NS = append(mc.NS, &NSDef{Name: extra, Rels: []*RelDef{{Name: "unrelated_" + strings.ToLower(extra), Types: []TypeRef{{NS: mc.NS[0].Name}}}}})
+		pos := []int{len(trav.Types), 0, len(trav.Types) / 2}[(int(idx)+k)%3]
+		tt := append([]TypeRef(nil), trav.Types[:pos]...)
+		tt = append(tt, TypeRef{NS: extra})
+		trav.Types = append(tt, trav.Types[pos:]...)
+		where := []string{"last", "first", "middle"}[(int(idx)+k)%3]
+		text := (&renderStyle{FullParens: true}).render(mc)
+		if _, oerrs := schema.Parse((&renderStyle{FullParens: true}).render(cc.Cfg)); len(oerrs) > 0 {
+			continue
+		}
+		_, errs := schema.Parse(text)
+		run.eval(1)
+		run.count("mutations", 1)
+		run.count("mutation_traverse-target-missing-on-one-union-member", 1)
+		if len(errs) == 0 {
+			lim.violate(run, violation{Index: idx, Sub: fmt.Sprintf("partial%d", k), Sig: "C11:mutation-accepted:traverse-target-missing-on-one-union-member:" + where,
+				Summary: fmt.Sprintf("%s.%s traverses %s and asks for %q; the union type of %s got the additional %s member %s, which does not declare %q: Parse reports no error", site.NS, site.Rel, ttu.Rel, ttu.Comp, ttu.Rel, where, extra, ttu.Comp),
+				Case:    cc, Detail: map[string]any{"mutated_text": text, "added_member": extra, "position": where}})
+			verdict = "violation"
+		}
+	}
+
 	return verdict
 }
